@@ -212,6 +212,16 @@ func (c *Ctx) c01Strides() {
 				}
 			}
 		}
+		if !good && spec.name == "Len" {
+			// the total may be computed by a shared helper: k + Σ a.Len() over the receiver's own AVP list
+			for _, rv := range flow.ReturnValues(f, 0) {
+				if _, l, ok := c.lenSum(rv, 0); ok {
+					if tn, fld, base, okf := flow.FieldOf(flow.Peel(l)); okf && tn == spec.typ && fld == "AVP" && flow.Peel(base) == ssa.Value(f.Params[0]) {
+						good = true
+					}
+				}
+			}
+		}
 		r.Check(good, "R4", key, c.fpos(f), "the running offset / total advances by (*AVP).Len() of each element", "the encoder does not advance by (*AVP).Len() per AVP: AVPs are written at offsets that differ from what the decoder walks")
 	}
 	// per-type alignment
@@ -603,4 +613,85 @@ func (c *Ctx) c01Opaque(ar *ssa.Function) {
 		}
 		r.Check(good, "R6", key, c.fpos(ar), "the lookup error aborts decoding only on the edge where no dictionary AVP (not even the placeholder) was returned", "the AVP decoder aborts on a dictionary miss even though an Unknown placeholder is available: messages with unknown AVPs cannot be read")
 	}
+}
+
+// lenSum: v = k + Σ (*AVP).Len() over the elements of one []*AVP list — a loop-carried total that starts at the
+// constant k and adds (*AVP).Len() of the ranged element each iteration, a helper computing such a sum for a
+// list parameter, or such a value plus a constant. Returns k and the list expression.
+func (c *Ctx) lenSum(v ssa.Value, depth int) (int64, ssa.Value, bool) {
+	if depth > 3 || v == nil {
+		return 0, nil, false
+	}
+	avpLen := c.P.Method("diam", "AVP", "Len")
+	switch x := flow.Peel(v).(type) {
+	case *ssa.Phi:
+		var k int64
+		var list ssa.Value
+		hasStart, hasStep := false, false
+		for _, e := range x.Edges {
+			if kk, ok := flow.ConstInt(e); ok {
+				k, hasStart = kk, true
+				continue
+			}
+			bo, ok := e.(*ssa.BinOp)
+			if !ok || bo.Op != token.ADD {
+				return 0, nil, false
+			}
+			var add ssa.Value
+			if bo.X == ssa.Value(x) {
+				add = bo.Y
+			} else if bo.Y == ssa.Value(x) {
+				add = bo.X
+			} else {
+				return 0, nil, false
+			}
+			call, ok := add.(*ssa.Call)
+			if !ok || flow.StaticCallee(call) != avpLen || len(call.Call.Args) != 1 {
+				return 0, nil, false
+			}
+			// the element: *(&list[i])
+			u, ok := call.Call.Args[0].(*ssa.UnOp)
+			if !ok {
+				return 0, nil, false
+			}
+			ia, ok := u.X.(*ssa.IndexAddr)
+			if !ok {
+				return 0, nil, false
+			}
+			list, hasStep = ia.X, true
+		}
+		if hasStart && hasStep {
+			return k, list, true
+		}
+	case *ssa.BinOp:
+		if x.Op != token.ADD {
+			return 0, nil, false
+		}
+		for _, pr := range [][2]ssa.Value{{x.X, x.Y}, {x.Y, x.X}} {
+			if kk, ok := flow.ConstInt(pr[0]); ok {
+				if k, l, ok := c.lenSum(pr[1], depth+1); ok {
+					return k + kk, l, true
+				}
+			}
+		}
+	case *ssa.Call:
+		g := flow.StaticCallee(x)
+		if g == nil || g.Blocks == nil || !c.P.IsLibrary(g) || g == avpLen {
+			return 0, nil, false
+		}
+		rvs := flow.ReturnValues(g, 0)
+		if len(rvs) != 1 {
+			return 0, nil, false
+		}
+		k, l, ok := c.lenSum(rvs[0], depth+1)
+		if !ok {
+			return 0, nil, false
+		}
+		if p, isP := flow.Peel(l).(*ssa.Parameter); isP && p.Parent() == g {
+			if i := paramIndex(g, p); i < len(x.Call.Args) {
+				return k, x.Call.Args[i], true
+			}
+		}
+	}
+	return 0, nil, false
 }
